@@ -13,3 +13,58 @@ package cli
 //@   ensures -1 <= i && i < len(str)
 //@   ensures i >= 0 ==> (str[i] == '\n' || str[i] == '\r')
 //@   ensures forall k :: {str[k]} 0 <= k && k < len(str) && (i < 0 || k < i) ==> (str[k] != '\n' && str[k] != '\r')
+
+//@ pred isNL(b int) = b == '\n' || b == '\r'
+//@ pred termEnd(s string, p int) = s[p] == '\n' || (s[p] == '\r' && !(p + 1 < len(s) && s[p+1] == '\n'))
+// term(s, p): number of line-terminator ends (LF, or CR not followed by LF) at byte indices < p.
+// The 1-based line of the byte at index k is term(s, k) + 1 (a terminator belongs to the line it ends).
+//@ spec func term(s string, p int) int
+//@ axiom term_zero: forall s string :: {term(s, 0)} term(s, 0) == 0
+//@ axiom term_step: forall s string; p, q int :: {term(s, p), term(s, q)} q == p + 1 && 0 <= p && p < len(s) ==> term(s, q) == term(s, p) + (termEnd(s, p) ? 1 : 0)
+//@ axiom term_mono: forall s string; p, q int :: {term(s, p), term(s, q)} 0 <= p && p <= q && q <= len(s) ==> term(s, p) <= term(s, q)
+
+//@ lemma term_gap(s string, a int, b int)
+//@   property C17
+//@   requires 0 <= a && a <= b && b <= len(s)
+//@   requires forall k :: {s[k]} a <= k && k < b ==> !isNL(s[k])
+//@   ensures term(s, b) == term(s, a)
+//@   induct b
+//@   decreases b - a
+//@   trigger term(s, a), term(s, b)
+
+//@ invariant-of (ss *stringScanner) 0 <= ss.offset && ss.offset <= len(ss.str)
+
+//@ func (ss *stringScanner) next() (line string, start int, ok bool)
+//@   property C17
+//@   modifies ss.offset
+//@   ensures ok == (old(ss.offset) < len(ss.str))
+//@   ensures !ok ==> ss.offset == old(ss.offset)
+//@   ensures ok ==> start == old(ss.offset) && ss.offset > start && ss.offset <= len(ss.str)
+//@   ensures ok ==> start + len(line) <= len(ss.str) && line == ss.str[start : start+len(line)]
+//@   ensures ok ==> forall k :: {ss.str[k]} start <= k && k < start + len(line) ==> !isNL(ss.str[k])
+//@   ensures ok && start + len(line) == len(ss.str) ==> ss.offset == len(ss.str)
+//@   ensures ok && start + len(line) < len(ss.str) ==> isNL(ss.str[start+len(line)])
+//@   ensures ok && start + len(line) < len(ss.str) && termEnd(ss.str, start+len(line)) ==> ss.offset == start + len(line) + 1
+//@   ensures ok && start + len(line) < len(ss.str) && !termEnd(ss.str, start+len(line)) ==> ss.offset == start + len(line) + 2
+//@   ensures ok ==> term(ss.str, start+len(line)) == term(ss.str, start)
+//@   ensures ok && start + len(line) < len(ss.str) && !termEnd(ss.str, start+len(line)) ==> term(ss.str, start+len(line)+1) == term(ss.str, start)
+//@   ensures ok && start + len(line) < len(ss.str) ==> term(ss.str, ss.offset) == term(ss.str, start) + 1
+//@   ensures ok && start + len(line) == len(ss.str) ==> term(ss.str, ss.offset) == term(ss.str, start)
+
+//@ func trimLastInvalidRune(s string) (r string)
+//@   property C17
+//@   ensures len(r) <= len(s) && len(s) - len(r) <= 3 && r == s[:len(r)]
+
+// Number of lines of s (a final line without terminator counts).
+//@ spec func nlines(s string) int = term(s, len(s)) + ((len(s) > 0 && !termEnd(s, len(s)-1)) ? 1 : 0)
+
+//@ func getLineByOffset(str string, offset int) (linestr string, line, column int)
+//@   property C17
+//@   modifies
+//@   loop 1 invariant ss != nil && fresh(ss) && ss.str == str && 0 <= ss.offset && ss.offset <= len(str)
+//@   loop 1 invariant (line == 0 && ss.offset == 0) || ss.offset < offset
+//@   loop 1 invariant line == term(str, ss.offset) + ((ss.offset == len(str) && ss.offset > 0 && !termEnd(str, ss.offset-1)) ? 1 : 0)
+//@   ensures 1 <= offset && offset <= len(str) ==> line == term(str, offset-1) + 1
+//@   ensures offset <= 0 && len(str) > 0 ==> line == 1
+//@   ensures offset > len(str) ==> line == nlines(str)
+//@   ensures len(linestr) <= 64 && 0 <= column
